@@ -83,15 +83,29 @@ def make_case(rng, b, cartesian):
         near = [s for s in range(nc * 4) if 4 * qs[c][s] < 9 * qmin]
         if len(near) != 4 or any(abs(4 * qs[c][s] - 9 * qmin) < 0.02 * 9 * qmin for s in range(nc * 4)):
             return None
-    species = [Species('N')] * nc + [Species('H')] * (nc * 4)
-    coords = np.concatenate([cen, sat], axis=1) / N + rng.integers(-1, 2, size=(T, nc * 5, 3))
+    # centre / satellite species and bystander species whose symbols are contained in (or contain) those names: atoms are
+    # selected by EQUALITY of the element symbol.  Atoms of the three groups are interleaved, keeping the order within a group.
+    ctype, stype, others = [('N', 'H', []), ('Na', 'He', ['N', 'H']), ('C', 'Cl', ['O']), ('Cl', 'C', []), ('Si', 'Br', ['S', 'B', 'I']),
+                            ('N', 'H', ['He', 'Na', 'Ne'])][int(rng.integers(0, 6))]
+    by = [str(x) for x in rng.choice(others, size=int(rng.integers(1, 4)))] if others else []
+    bpos = np.mod(rng.integers(0, N, size=(1, len(by), 3)) + np.cumsum(rng.integers(-1, 2, size=(T, len(by), 3)), axis=0), N)
+    groups = ['c'] * nc + ['s'] * (nc * 4) + ['b'] * len(by)
+    rng.shuffle(groups)
+    it = {'c': iter(range(nc)), 's': iter(range(nc * 4)), 'b': iter(range(len(by)))}
+    species, cols = [], []
+    for gname in groups:
+        j = next(it[gname])
+        species.append(Species({'c': ctype, 's': stype}.get(gname) or by[j]))
+        cols.append({'c': cen, 's': sat, 'b': bpos}[gname][:, j, :])
+    allpos = np.stack(cols, axis=1)
+    coords = allpos / N + rng.integers(-1, 2, size=allpos.shape)
     traj = Trajectory(species=species, coords=coords, lattice=Lattice(M), time_step=1e-15)
     pg = POINT_GROUPS[b % len(POINT_GROUPS)]
     ops = [np.rint(o.rotation_matrix).astype(int) for o in PointGroup(pg).symmetry_ops]
     A = rng.integers(-3, 4, size=(3, 3))
     rec = {'b': b, 'G': G, 'N': N, 'R': R, 'cen': cen.tolist(), 'sat': sat.tolist(), 'cartesian': bool(cartesian), 'scale': 1,
            'ops': [o.tolist() for o in ops], 'A': A.tolist()}
-    return rec, traj, {'M': M, 'pg': pg, 'ops': ops, 'A': A, 'fam': fam, 'orient': orient, 'T': T, 'nc': nc}
+    return rec, traj, {'M': M, 'pg': pg, 'ops': ops, 'A': A, 'fam': fam, 'orient': orient, 'T': T, 'nc': nc, 'types': (ctype, stype), 'bystanders': by}
 
 
 def deviant_acf(vectors):
@@ -149,7 +163,7 @@ def run(rep):
         if not e['orth']:
             raise core.Machinery('point group operation not orthogonal')
         gen.perturb(traj, rng)
-        o = Orientations(traj, 'N', 'H')
+        o = Orientations(traj, x['types'][0], x['types'][1])
         vec = np.array(o.vectors, dtype=float, copy=True)
         T, nb = vec.shape[0], vec.shape[1]
         fr = vec @ np.linalg.inv(x['M']) * N
